@@ -15,7 +15,20 @@ let sp_contains ((ax, ay, aw, ah) as a) ((bx, by, bw, bh) as b) =
 let sp_intersects ((ax, ay, aw, ah) as a) ((bx, by, bw, bh) as b) =
   sp_nonempty a && sp_nonempty b && BQ.lt ax (BQ.add bx bw) && BQ.lt ay (BQ.add by bh) && BQ.lt bx (BQ.add ax aw) && BQ.lt by (BQ.add ay ah)
 
+let contains_sub (s : string) (sub : string) : bool =
+  let n = String.length s and m = String.length sub in
+  let rec go i = i + m <= n && (String.sub s i m = sub || go (i + 1)) in go 0
 let run (c : string) (obs : string) : string * string * string =
+  if contains_sub c "kind=g " then
+    (* general floats: the exact model does not apply (x+w rounds); the harness compared every query with a linear scan using the
+       library's own predicates and reports the first disagreement per operation *)
+    (obs, (if obs = "PANIC" || contains_sub obs "PANIC" then "FAIL kind=panic"
+           else if contains_sub obs "MISMATCH:" then
+             "FAIL kind=" ^ (let i = ref 0 in (try while String.sub obs !i 9 <> "MISMATCH:" do incr i done with _ -> ()); 
+                              let j = ref (!i + 9) in while !j < String.length obs && obs.[!j] <> ' ' do incr j done;
+                              String.sub obs (!i + 9) (!j - !i - 9)) ^ "-query-differs-from-linear-scan"
+           else "ok"), "float-general")
+  else
   match split_on "|" c with
   | [hdr; body] ->
     let kind = ref "i" and th = ref 0 and pts = ref [] and prs = ref [] in
